@@ -31,6 +31,7 @@ type Feat struct {
 	AdvNames                                 bool // identifiers from the adversarial pool (collision families, case twins, helper look-alikes, shell words)
 	Tiny                                     bool // one or two statements only
 	NoStrLit                                 bool // sparse programs: string values only from variables, itoa, defaults — no string literal anywhere
+	SharedGlobals                            bool // library files define public globals from a small shared pool (Name, Version, Debug): several imports then export the same name
 	NamePool                                 bool // draw function names from a small shared pool (different programs then define the same names in different orders)
 	WorldPaths                               []string // relative paths (as seen from this program's file) of files and directories that exist in the world: string literals and program names may coincide with them
 }
@@ -278,6 +279,10 @@ func (g *pgen) callExpr(f FuncSig, env []variable, d int) string {
 
 func (g *pgen) expr(typ string, env []variable, d int) string {
 	r := g.r
+	if d < 3 && (typ == "int" || typ == "bool" || typ == "string") && r.Chance(2) {
+		// redundant parentheses, two levels deep
+		return "((" + g.expr(typ, env, d+1) + "))"
+	}
 	leaf := d >= g.f.MaxExpr
 	vs := g.varsOf(env, typ)
 	switch typ {
@@ -617,7 +622,14 @@ func (g *pgen) block(env []variable, n int, depth int, inFunc, inLoop bool, uppe
 					g.line("switch %s {", g.expr(t, env, 1))
 				}
 			default:
-				g.line("switch %s {", g.expr(t, env, 1))
+				h := g.expr(t, env, 1)
+				switch r.Intn(8) {
+				case 0:
+					h = "(" + h + ")"
+				case 1:
+					h = "((" + h + "))"
+				}
+				g.line("switch %s {", h)
 			}
 			g.swDepth++
 			callCases := r.Chance(20) && len(g.funcsRet(t)) > 0 // every case value is (or contains) a call
@@ -976,6 +988,25 @@ func GenProgram(r *Rng, f Feat, imports []ModuleRef, tag string) (string, []Func
 	}
 	public := []FuncSig{}
 	env := []variable{}
+	if f.SharedGlobals && f.PublicFuncs {
+		// public globals whose names other library files use as well
+		for _, n := range []string{"Name", "Version", "Debug"} {
+			if r.Chance(60) {
+				switch n {
+				case "Name":
+					g.line("var Name string = \"%s\"", tag)
+				case "Version":
+					g.line("Version := %d", r.Intn(9))
+				default:
+					g.line("var Debug bool = %v", r.Chance(50))
+				}
+			}
+		}
+	} else if f.SharedGlobals && len(imports) > 1 && r.Chance(40) {
+		// ... and an importing file that reads such a name without defining it (the pinned parser
+		// rejects this: the name belongs to the imported files)
+		g.line("print(%s)", r.Pick([]string{"Name", "Version", "Debug"}))
+	}
 	// a few globals first so that functions can use them
 	if f.Tiny {
 		// typed declarations without initial value for slices keep the program free of literals
